@@ -213,7 +213,7 @@ class _F(Facet):
 class Sym(_F):
     name = "sym"
     mode = "sym"
-    examples = {"quick": 3200, "thorough": 40000}
+    examples = {"quick": 3200, "thorough": 120000}
     shards = {"quick": 16, "thorough": 16}
 
     def strategy(self, tier):
@@ -223,14 +223,14 @@ class Sym(_F):
 class Coded(_F):
     name = "coded"
     mode = "coded"
-    examples = {"quick": 8000, "thorough": 120000}
+    examples = {"quick": 8000, "thorough": 360000}
     shards = {"quick": 8, "thorough": 16}
 
 
 class Float(_F):
     name = "float"
     mode = "float"
-    examples = {"quick": 6000, "thorough": 90000}
+    examples = {"quick": 6000, "thorough": 270000}
     shards = {"quick": 8, "thorough": 16}
 
 
